@@ -1,10 +1,12 @@
 package logging
 
 import (
+	"bufio"
 	"context"
 	"crypto/rand"
 	"encoding/hex"
 	"fmt"
+	"net"
 	"net/http"
 	"strings"
 	"time"
@@ -27,9 +29,62 @@ func RequestContextMiddleware(cfg config.LoggingConfig) func(http.Handler) http.
 			logger := enrichLogger(ctx, requestID, traceID)
 
 			ctx = contextWithLogger(ctx, logger, requestID, traceID)
+			if requestID != "" || traceID != "" {
+				w = &idHeaderWriter{ResponseWriter: w, ids: [][2]string{{requestHeader, requestID}, {traceHeader, traceID}}}
+			}
 			next.ServeHTTP(w, r.WithContext(ctx))
 		})
 	}
+}
+
+// idHeaderWriter puts the identifier headers back when the final response
+// header is written. They are set on the header map up front, but the reverse
+// proxy clears that map after it has relayed an informational (1xx) response
+// from the backend, and the final response would go out without them.
+type idHeaderWriter struct {
+	http.ResponseWriter
+	ids [][2]string
+}
+
+func (w *idHeaderWriter) restore() {
+	h := w.ResponseWriter.Header()
+	for _, id := range w.ids {
+		if id[1] != "" && h.Get(id[0]) == "" {
+			h.Set(id[0], id[1])
+		}
+	}
+}
+
+func (w *idHeaderWriter) WriteHeader(statusCode int) {
+	w.restore()
+	w.ResponseWriter.WriteHeader(statusCode)
+}
+
+func (w *idHeaderWriter) Write(b []byte) (int, error) {
+	w.restore()
+	return w.ResponseWriter.Write(b)
+}
+
+// Flush implements http.Flusher.
+func (w *idHeaderWriter) Flush() {
+	w.restore()
+	if f, ok := w.ResponseWriter.(http.Flusher); ok {
+		f.Flush()
+	}
+}
+
+// Hijack implements http.Hijacker (WebSocket tunnels).
+func (w *idHeaderWriter) Hijack() (net.Conn, *bufio.ReadWriter, error) {
+	h, ok := w.ResponseWriter.(http.Hijacker)
+	if !ok {
+		return nil, nil, fmt.Errorf("response writer does not implement http.Hijacker")
+	}
+	return h.Hijack()
+}
+
+// Unwrap lets http.ResponseController reach the underlying ResponseWriter.
+func (w *idHeaderWriter) Unwrap() http.ResponseWriter {
+	return w.ResponseWriter
 }
 
 func handleRequestID(r *http.Request, w http.ResponseWriter, cfg config.LoggingConfig, header string) string {
